@@ -211,6 +211,32 @@ def doAsk (toks : List String) : Option String := do
     runAsk toks (openaiTransform theta sigma0) (mir != 0)
   | _ => none
 
+/-- `reset(x0)` of each native strategy (state of a fresh optimizer) -/
+def doReset (toks : List String) : Option String := do
+  let kind ← kv toks "kind"
+  let n ← getNat toks "n"
+  let sigma0 ← getRat toks "sigma0"
+  match kind with
+  | "cma" =>
+    let s := cmaReset sigma0 (← getVec n toks "x0")
+    pure (s!"ok evals={s.evals} mean={showVec s.mean} sigma={showRat s.sigma} pc={showVec s.pc} " ++
+      s!"ps={showVec s.ps} cov={showMat s.cov}")
+  | "sep" =>
+    let s := sepReset sigma0 (← getVec n toks "x0")
+    pure (s!"ok evals={s.evals} mean={showVec s.mean} sigma={showRat s.sigma} pc={showVec s.pc} " ++
+      s!"ps={showVec s.ps} cov={showVec s.cov}")
+  | "lm" =>
+    let c : LmCfg := ⟨n, ← getNat toks "batch", ← getNat toks "nvec"⟩
+    let s := lmReset c sigma0 (← getVec c.n toks "x0")
+    let idx := List.range c.nvec
+    pure (s!"ok gens={s.gens} mean={showVec s.mean} sigma={showRat s.sigma} ps={showVec s.ps} " ++
+      s!"m={showRows s.m} csigma={showRat (lmCsigma c)} cd={showRatList (idx.map (lmCd c))} " ++
+      s!"cc={showRatList (idx.map (lmCc c))}")
+  | "adam" =>
+    let s := adamReset (← getVec n toks "x0")
+    pure s!"ok {showAdam s}"
+  | _ => none
+
 def step (st : Unit) (toks : List String) : Unit × String :=
   let r : Option String :=
     match toks with
@@ -222,6 +248,7 @@ def step (st : Unit) (toks : List String) : Unit × String :=
     | "adam-step" :: rest => doAdamStep rest
     | "ascent-step" :: rest => doAscentStep rest
     | "ask" :: rest => doAsk rest
+    | "reset" :: rest => doReset rest
     | _ => none
   (st, r.getD "bad-op")
 
